@@ -10,6 +10,7 @@ import Oracle.CcbEngine
 import Oracle.CancelEngine
 import Oracle.PrivacyEngine
 import Oracle.DecodeEngine
+import Oracle.LocksetEngine
 
 def main (args : List String) : IO UInt32 := do
   match args with
@@ -25,6 +26,7 @@ def main (args : List String) : IO UInt32 := do
   | ["cancel"] => Oracle.CancelEngine.run; return 0
   | ["privacy"] => Oracle.PrivacyEngine.run; return 0
   | ["decode"] => Oracle.DecodeEngine.run; return 0
+  | ["conc"] => Oracle.LocksetEngine.run; return 0
   | _ =>
     IO.eprintln "usage: cedar_oracle <engine>   (one op per stdin line, one reply per line)"
     return 2
